@@ -189,6 +189,12 @@ func widgetSweep(idx, n int) {
 							r.Violation(sig(cl), cost, detail{Part: "layout", Widget: name, Case: cs, Why: rest})
 							continue
 						}
+						// the surface of a Center holds its child - also an empty one (the tree is what focus and hit
+						// testing walk, not only what gets painted)
+						if wrap > 0 && len(s.Children) != 1 {
+							r.Violation(sig("centre|child-count"), cost, detail{Part: "layout", Widget: name, Case: cs, Why: fmt.Sprintf("the Center's surface has %d children, want exactly its child", len(s.Children))})
+							continue
+						}
 						// a centred child that fits lies inside its parent with margins equal to within one cell
 						if wrap > 0 && len(s.Children) == 1 {
 							ch := s.Children[0]
